@@ -38,6 +38,7 @@ pub const D_NAME_INPUT: u8 = 1; // name on an Input node
 pub const D_PRIVATE: u8 = 2; // Private on any non-Constant node
 pub const D_SEND: u8 = 3; // Send(s, r) on a NOP node
 pub const D_PRIVATE_META: u8 = 4; // Private on a getter / constructor / conversion / NOP node
+pub const D_SEND_ANY: u8 = 6; // Send(s, r) on any non-constant, non-input node (getters, conversions, arithmetic ...)
 pub const D_SEND_WRAP: u8 = 5; // insert NOP + Send(s, r) after a node; its users then use the NOP
 
 #[derive(Clone, Debug, Serialize, Deserialize, PartialEq, Eq, Hash)]
@@ -159,6 +160,7 @@ pub fn decorate(src: &Context, decos: &[Deco]) -> Result<(Context, DecoStats), S
                     D_NAME_INPUT => op.is_input(),
                     D_PRIVATE => !matches!(op, Operation::Constant(_, _)),
                     D_PRIVATE_META => is_meta_op(&op),
+                    D_SEND_ANY => !matches!(op, Operation::Constant(_, _)) && !op.is_input() && (is_meta_op(&op) || d.s % 2 == 0),
                     _ => matches!(op, Operation::NOP),
                 }
             })
@@ -580,7 +582,12 @@ pub fn oracle(c: &Case) -> Outcome {
                     let (d1, d2) = (n.get_node_dependencies(), img.get_node_dependencies());
                     if d1.len() == d2.len() {
                         for (a, b) in d1.iter().zip(d2.iter()) {
-                            if sends_of(a).is_empty() {
+                            // only for markers on NOP nodes (what every producer emits): a marker
+                            // on a node that the optimiser legitimately bypasses - the B2A in
+                            // A2B(B2A(y)) = y, a getter of a constructor - goes away with that node
+                            // when nothing else needs its value (the user "survives" as another,
+                            // equivalent node); a marker on a MAPPED node is checked above
+                            if sends_of(a).is_empty() || !matches!(a.get_operation(), Operation::NOP) {
                                 continue;
                             }
                             // position-independent: an optimiser that merges Add(x, y) with
@@ -842,6 +849,7 @@ fn arb_deco() -> BoxedStrategy<Deco> {
             2 => Just(D_PRIVATE),
             3 => Just(D_PRIVATE_META),
             3 => Just(D_SEND),
+            2 => Just(D_SEND_ANY),
             4 => Just(D_SEND_WRAP),
         ],
         any::<u16>(),
